@@ -34,14 +34,16 @@ def answer (toks : List String) : String :=
   | ["aoffenders"] =>
       let o := StructC06.attrTables.flatMap fun c => (attrOffenders c.2).map fun m => c.1 ++ "." ++ m
       if o.isEmpty then "-" else join o ","
-  | ["arun", cls, qs, reps] =>
+  | ["arun", cls, qs, reps, links] =>
       -- a query chain on one object: per query whether it observes something else than on a
       -- fresh object, then the attribute store left behind (slots in order of first appearance).
       -- Generating expressions are compared through `reps` (expressions with equal values on
       -- this object share a representative; 999 = not evaluable)
       match StructC06.attrTables.lookup cls with
       | none => "no-table"
-      | some tbl =>
+      | some tbl0 =>
+        -- links = 0: the object has no links, nothing is ever stored (`linkless`)
+        let tbl := if links == "0" then linkless tbl0 else tbl0
         let names := splitTok qs ","
         let rl := nats reps
         let rep (g : Nat) : Nat := rl.getD g g
